@@ -36,6 +36,7 @@ fn main() {
 		"C07" => checks::c07::run(&args),
 		"C09" => checks::c09::run(&args),
 		"C10" => checks::c10::run(&args),
+		"C11" => checks::c11::run(&args),
 		"C12" => checks::c12::run(&args),
 		p => cli::die(&format!("property {} is not served by mc-world", p)),
 	};
